@@ -39,6 +39,8 @@ def gen_world(rng, min_dims=3, max_dims=5):
     for d in dims:
         if d["letter"] != "t" and len(d["items"]) >= 2 and rng.chance(0.35):
             d["items"] = rng.shuffled(d["items"])
+        elif d["letter"] == "t" and rng.chance(0.12):
+            d["items"] = rng.shuffled(d["items"])  # nothing in arraysim judges stock numbers; labels stay labels
     nbase = len(dims)
     for i in range(nbase):
         d = dims[i]
@@ -154,6 +156,30 @@ def build_key(spec, arr, D, OF):
         return info
     form = spec["form"]
     only_items = all(v[0] == "item" for v in chosen.values())
+    if form == "tuple" and all(v[0] in ("item", "list") for v in chosen.values()) and not only_items:
+        # several items of one dimension in a comma key; the items of different dimensions may be interleaved
+        flat = []
+        for p_, v in sorted(chosen.items()):
+            idxs = [v[1]] if v[0] == "item" else list(v[1])
+            if v[0] == "list" and len(idxs) == 1:
+                chosen[p_] = ("item", idxs[0])
+            flat.append([dims[p_].items[i] for i in idxs])
+        out, k_ = [], 0
+        while any(flat):
+            if flat[k_ % len(flat)]:
+                out.append(flat[k_ % len(flat)].pop(0))
+            k_ += 1
+        amb = any(sum(1 for d in dims if it in d.items) > 1 for it in out)
+        for p_, v in chosen.items():
+            info.sel[p_] = v
+            if v[0] == "list":
+                info.has_list = True
+        info.form = "tuple"
+        info.key = tuple(out)
+        if amb:
+            info.wellformed = False
+            info.f1 = "ambiguous_item"
+        return info
     if form in ("bare", "tuple") and not only_items:
         form = "dict_letter"
     if form == "bare" and len(chosen) != 1:
